@@ -1156,6 +1156,12 @@ func (sys *System) ClearLocation(ctx *Context, location string) error {
 			Log(ERROR, ctx, "System.ClearLocation", "location", location, "error", err, "when", "clear")
 		} else {
 			Log(DEBUG, ctx, "System.ClearLocation", "location", location, "clear", "done")
+			if sys.checkingExistence(ctx) {
+				// Clearing removes every fact, the created
+				// marker included; the location itself still
+				// exists (DeleteLocation is what removes it).
+				err = markLocationCreated(ctx, loc)
+			}
 		}
 	}
 
